@@ -206,6 +206,7 @@ func (sc *SlotChain) Entry(ctx *EntryContext) *TokenResult {
 	vhook.Yield(400)
 	ss := sc.stats
 	ruleCheckRet = ctx.RuleCheckResult
+	ctx.outcomeReported = true
 	if len(ss) > 0 {
 		for _, s := range ss {
 			// indicate the result of rule based checking slot.
@@ -218,6 +219,31 @@ func (sc *SlotChain) Entry(ctx *EntryContext) *TokenResult {
 		}
 	}
 	return ruleCheckRet
+}
+
+// EntryPassedOnPanic must be called for an entry that is passed because Entry(ctx) returned
+// nil, i.e. a slot panicked. If the panic was raised before the statistic slots were told any
+// outcome (in a prepare or rule-check slot), they are told here that the entry passed: Exit
+// will report its completion to every statistic slot, and a completion without the matching
+// pass corrupts the statistics (e.g. the concurrency of the resource drops below zero).
+func (sc *SlotChain) EntryPassedOnPanic(ctx *EntryContext) {
+	if ctx == nil || ctx.outcomeReported {
+		return
+	}
+	defer func() {
+		if err := recover(); err != nil {
+			logging.Error(errors.Errorf("%+v", err), "Sentinel internal panic in SlotChain.EntryPassedOnPanic()")
+		}
+	}()
+	ctx.outcomeReported = true
+	if ctx.RuleCheckResult == nil {
+		ctx.RuleCheckResult = NewTokenResultPass()
+	} else {
+		ctx.RuleCheckResult.ResetToPass()
+	}
+	for _, s := range sc.stats {
+		s.OnEntryPassed(ctx)
+	}
 }
 
 func (sc *SlotChain) exit(ctx *EntryContext) {
